@@ -18,18 +18,35 @@ from harness.props.c05 import ref_delete
 MANIFEST = dict(
     category="proof",
     technique="Lean 4 theorems over a hand-written model of the xpath engine + differential correspondence with the implementation",
-    text="Lean: the model of _add/__setitem__ follows the code branch by branch, including what a failing creation leaves "
-         "behind. Proved (unbounded in tree size and in the length of the created chain): a chain of fresh plain names below an "
-         "existing dict creates exactly the nested dictionaries and stores v at the end (C03_create_names), 'name[new()]' on a "
-         "list appends exactly one element and on a fresh name creates the one-element list (C03_append_new, "
-         "C03_new_on_fresh), every previously existing position keeps its value (frame through setAt) and the value reads back "
-         "at the position with new() replaced by the last index. The full statement for every creation path of the property's "
-         "grammar (C03_create_stmt) is stated; outside the honoured sub-grammar G_ok it is refuted by counter-example theorems "
-         "(C03_debris_cex, C03_misplaced_cex = known findings C03-a, C03-b). The model is compared with the real code on "
-         "creation paths of every shape (tree after success and after failure); the statement is executed on the "
-         "implementation along histories that interleave creations with C02 writes and C05 deletes.",
+    text="Lean: the model of _find/_add/__setitem__ follows the code branch by branch, including the in-place wrap done by the "
+         "new() search and what a failing creation leaves behind. Proved, unbounded in tree size, depth of the existing node q and "
+         "length of the created chain, for canonical '//'-rooted paths with plain names: (1) the miss: after tokens that spell an "
+         "existing dict node, a plain key or name[idx] token whose name is absent makes _find report NOT FOUND at that node with "
+         "the tree untouched (C03_find_miss_key, C03_find_miss_keyidx); (2) a chain of fresh names creates exactly the nested "
+         "dictionaries and stores v (C03_create_names = the full names statement); (3) name[new()] on a list appends exactly one "
+         "element and on a non-list value wraps it as [old, v] (C03_append_new), name[new()] / name[0] on a fresh name creates "
+         "the one-element list (C03_new_on_fresh), name[len] on a list of length len appends exactly one element "
+         "(C03_len_appends) - each also when followed by any chain of fresh names (name[new()]/x/y appends {x: {y: v}}); "
+         "(3b) the general statement over the step type CStep (name | name[e] | [e]) with reference semantics createIn: for "
+         "every path of the honoured grammar G_ok of any length whose first step is a fresh name, name[new()] (fresh or "
+         "existing name), name[0] (fresh) or name[len] below an existing dict node and whose later steps are fresh names, "
+         "n[new()] or n[0], d[path]=v yields exactly createIn (C03_create_partial, by mutual induction over the two states "
+         "of _add: inside a dict / on a list with a placeholder); "
+         "(4) frame: every node that existed keeps position and value, except ancestors of the written slot; elements of the "
+         "list stay, a wrapped value moves below index 0 (C03_frame_new_slot, C03_frame_append, C03_frame_wrap); read-back: "
+         "getItem returns v through the same path with the index replaced by last() and does not change the tree, for a "
+         "chain of names and for one element-creating step followed by names (C03_read_back_names, C03_read_back_elem). "
+         "Stated, not proved: C03_create_stmt (the same statement including a bare [new()]/[len] first step below a list; "
+         "open only for a list that is itself a list element, where it is false for plain lists: C03-c), the general "
+         "read-back for arbitrary paths (C03_read_back_stmt). Refuted by counter-example theorems: an error leaves the tree unchanged "
+         "(C03_err_leaves_tree_false via C03_debris_cex = C03-a), silent misplacement (C03_misplaced_cex = C03-b), [new()] "
+         "below an element of a plain list raises (C03_new_in_plain_list_cex = C03-c). Differential part: the model is compared "
+         "with the real code on creation paths of every shape, inside and outside G_ok (tree after success and after failure); "
+         "the statement is executed on the implementation along histories that interleave G_ok creations with C02 writes and "
+         "C05 deletes against a plain reference, and refused creations must raise and store v nowhere.",
     note="G_ok: every element-creating step (name[new()], name[0] on a fresh name, [new()], [len]) is the last step or is "
-         "followed by a plain name step; other shapes are the known findings C03-a/C03-b.",
+         "followed by a plain name step; other shapes are the known findings C03-a/C03-b. Relative spellings and the "
+         "shapes of G_ok not covered by a theorem are differential only.",
     design_ref="5/C03",
 )
 
